@@ -1150,6 +1150,10 @@ class QuicConnection:
         :param end_stream: If set to `True`, the FIN bit will be set.
         """
         stream = self._get_or_create_stream_for_send(stream_id)
+        if stream.is_stopped_by_peer:
+            # The peer sent STOP_SENDING and the stream was reset; the application
+            # may not have seen the StopSendingReceived event yet, discard the data.
+            return
         stream.sender.write(data, end_stream=end_stream)
 
     def stop_stream(self, stream_id: int, error_code: int) -> None:
@@ -2227,6 +2231,7 @@ class QuicConnection:
 
         # reset the stream
         stream = self._get_or_create_stream(frame_type, stream_id)
+        stream.is_stopped_by_peer = True
         stream.sender.reset(error_code=QuicErrorCode.NO_ERROR)
 
         self._events.append(
